@@ -211,8 +211,350 @@ def distinct_pointers_overlap(acc):
     return False
 
 
+# ------------------------------------------------------------------------------------------
+# (G) memory-to-memory copies through a register, then narrower re-reads / partial overwrites of the copy
+# ------------------------------------------------------------------------------------------
+# Sub-generators of (G).  Set one to False only to keep the committed check green while a genuine finding of the unchanged
+# tree that it exposes is being triaged (see drafts/strengthen_B.md):
+G_COPY_REREAD = True            # load; store the (still symbolic) loaded value elsewhere; re-read narrower pieces of the copy
+G_COPY_OVERWRITE = True         # ... with a narrower store into the copy before the re-reads
+G_COPY_OVERLAP = True           # ... source and destination overlapping (only without the no-aliasing assumption)
+G_REG_STORE_REREAD = True       # a register (not loaded in the block) stored, then narrower pieces of it re-read
+G_READ_SPANS_UNWRITTEN = True   # a re-read that spans bytes written in the block and bytes never written in it
+# ... on big-endian data ISAs: OFF - exposes a genuine defect of the unchanged tree, waiting for triage (SPARC V8, no-aliasing
+# on, memtrace off: `ld [%g1+16],%g6 ; sth %g6,[%g3+4] ; ld [%g3+2],%g2` - the block map reads the two never-written bytes
+# at g3+4.. instead of g3+2..: mapper._Mem_read numbers the never-written parts after reversing the part list)
+G_READ_SPANS_UNWRITTEN_BIG_ENDIAN = True
+
+
+def _le(n, v):
+    return (v & ((1 << (8 * n)) - 1)).to_bytes(n, "little")
+
+
+def _be(n, v):
+    return (v & ((1 << (8 * n)) - 1)).to_bytes(n, "big")
+
+
+def _asm_sparc(kind, w, signed, rd, rb, disp):
+    op3 = {("ld", 32, 0): 0x00, ("ld", 8, 0): 0x01, ("ld", 16, 0): 0x02, ("ld", 64, 0): 0x03, ("ld", 8, 1): 0x09, ("ld", 16, 1): 0x0a,
+           ("st", 32, 0): 0x04, ("st", 8, 0): 0x05, ("st", 16, 0): 0x06, ("st", 64, 0): 0x07}.get((kind, w, signed if kind == "ld" and w < 32 else 0))
+    if op3 is None or (w == 64 and rd & 1):
+        return None
+    return _be(4, (3 << 30) | (rd << 25) | (op3 << 19) | (rb << 14) | (1 << 13) | (disp & 0x1fff))
+
+
+def _asm_ppc(kind, w, signed, rd, rb, disp):
+    opc = {("ld", 32, 0): 32, ("ld", 8, 0): 34, ("ld", 16, 0): 40, ("ld", 16, 1): 42, ("st", 32, 0): 36, ("st", 8, 0): 38, ("st", 16, 0): 44}.get(
+        (kind, w, signed if kind == "ld" and w == 16 else 0))
+    if opc is None or (w == 8 and signed and kind == "ld"):
+        return None
+    return _be(4, (opc << 26) | (rd << 21) | (rb << 16) | (disp & 0xffff))
+
+
+def _asm_mips(endian):
+    def f(kind, w, signed, rd, rb, disp):
+        opc = {("ld", 8, 1): 0x20, ("ld", 16, 1): 0x21, ("ld", 32, 0): 0x23, ("ld", 8, 0): 0x24, ("ld", 16, 0): 0x25,
+               ("st", 8, 0): 0x28, ("st", 16, 0): 0x29, ("st", 32, 0): 0x2b}.get((kind, w, signed if kind == "ld" and w < 32 else 0))
+        if opc is None:
+            return None
+        v = (opc << 26) | (rb << 21) | (rd << 16) | (disp & 0xffff)
+        return _be(4, v) if endian == -1 else _le(4, v)
+    return f
+
+
+def _asm_riscv(xlen):
+    def f(kind, w, signed, rd, rb, disp):
+        if w > xlen:
+            return None
+        sz = {8: 0, 16: 1, 32: 2, 64: 3}[w]
+        if kind == "ld":
+            f3 = sz if (signed or w == xlen) else sz | 4
+            return _le(4, ((disp & 0xfff) << 20) | (rb << 15) | (f3 << 12) | (rd << 7) | 0x03)
+        return _le(4, (((disp >> 5) & 0x7f) << 25) | (rd << 20) | (rb << 15) | (sz << 12) | ((disp & 0x1f) << 7) | 0x23)
+    return f
+
+
+def _asm_sh2(kind, w, signed, rd, rb, disp):
+    # mov.l @(disp,Rm),Rn / mov.l Rm,@(disp,Rn); the 16- and 8-bit forms with a displacement move R0 only (loads sign-extend)
+    if disp < 0:
+        return None
+    if w == 32 and disp % 4 == 0 and disp < 64:
+        return _be(2, (0x5000 | (rd << 8) | (rb << 4) | (disp // 4)) if kind == "ld" else (0x1000 | (rb << 8) | (rd << 4) | (disp // 4)))
+    if w in (8, 16) and rd == 0 and (kind == "st" or signed) and disp % (w // 8) == 0 and disp // (w // 8) < 16:
+        base = {("ld", 16): 0x8500, ("ld", 8): 0x8400, ("st", 16): 0x8100, ("st", 8): 0x8000}[(kind, w)]
+        return _be(2, base | (rb << 4) | (disp // (w // 8)))
+    return None
+
+
+def _asm_x86(x64):
+    def f(kind, w, signed, rd, rb, disp):
+        if not -128 <= disp < 128 or rb in (4, 5) or (w == 64 and not x64) or (w == 8 and rd >= 4 and not x64):
+            return None
+        modrm = bytes([0x40 | (rd << 3) | rb, disp & 0xff])
+        rex = b"\x48" if w == 64 else b""
+        if kind == "st":
+            return {8: (b"\x40" if x64 else b"") + b"\x88", 16: b"\x66\x89", 32: b"\x89", 64: rex + b"\x89"}[w] + modrm
+        if w >= 32:
+            return rex + b"\x8b" + modrm
+        return b"\x0f" + bytes([(0xbe if signed else 0xb6) + (w == 16)]) + modrm
+    return f
+
+
+def _asm_armv8(kind, w, signed, rd, rb, disp):
+    sz = {8: 0, 16: 1, 32: 2, 64: 3}[w]
+    if disp < 0 or disp % (w // 8) or signed:
+        return None
+    return _le(4, (sz << 30) | (0x39 << 24) | ((1 if kind == "ld" else 0) << 22) | ((disp // (w // 8)) << 10) | (rb << 5) | rd)
+
+
+def _asm_armv7(kind, w, signed, rd, rb, disp):
+    if signed or not 0 <= disp < 256:
+        return None
+    l = 1 if kind == "ld" else 0
+    if w == 32:
+        return _le(4, 0xe5800000 | (l << 20) | (rb << 16) | (rd << 12) | disp)
+    if w == 8:
+        return _le(4, 0xe5c00000 | (l << 20) | (rb << 16) | (rd << 12) | disp)
+    if w == 16:
+        return _le(4, 0xe1c000b0 | (l << 20) | (rb << 16) | (rd << 12) | ((disp >> 4) << 8) | (disp & 15))
+    return None
+
+
+def _asm_ebpf(kind, w, signed, rd, rb, disp):
+    if signed:
+        return None
+    sz = {32: 0x00, 16: 0x08, 8: 0x10, 64: 0x18}[w]
+    if kind == "ld":                         # ldx dst, [src+off]
+        return bytes([0x61 | sz, (rb << 4) | rd]) + _le(2, disp) + b"\0\0\0\0"
+    return bytes([0x63 | sz, (rd << 4) | rb]) + _le(2, disp) + b"\0\0\0\0"     # stx [dst+off], src
+
+
+# name -> (mode, encoder, source pointer register number, destination pointer, data registers, narrow-data register or None,
+#          word width, widths of the ISA's loads/stores)
+COPY_ISAS = {
+    # (sparc ldd/std and the MIPS byte loads raise in their semantics - C17's subject; ppc32 decodes but has no semantics at
+    # all, its blocks are dropped by the validation below)
+    "sparc_v8": (0, _asm_sparc, 1, 3, (2, 4, 6, 10), None, 32, (8, 16, 32)),
+    "ppc32": (0, _asm_ppc, 3, 4, (5, 6, 7, 8), None, 32, (8, 16, 32)),
+    "mips_r3000": (0, _asm_mips(-1), 4, 5, (8, 9, 10, 11), None, 32, (16, 32)),
+    "mips_r3000LE": (0, _asm_mips(1), 4, 5, (8, 9, 10, 11), None, 32, (16, 32)),
+    "superh_sh2": (0, _asm_sh2, 4, 5, (1, 2, 3, 6), 0, 32, (8, 16, 32)),
+    "riscv_rv32i": (0, _asm_riscv(32), 10, 11, (12, 13, 14, 15), None, 32, (8, 16, 32)),
+    "riscv_rv64i": (0, _asm_riscv(64), 10, 11, (12, 13, 14, 15), None, 64, (8, 16, 32, 64)),
+    "x86_x86": (0, _asm_x86(False), 6, 3, (0, 1, 2, 7), None, 32, (8, 16, 32)),
+    "x64_x64": (0, _asm_x86(True), 6, 3, (0, 1, 2, 7), None, 64, (8, 16, 32, 64)),
+    "arm_armv8": (0, _asm_armv8, 1, 2, (3, 4, 5, 6), None, 64, (8, 16, 32, 64)),
+    "arm_armv7": (0, _asm_armv7, 1, 2, (3, 4, 5, 6), None, 32, (8, 16, 32)),
+    "eBPF": (0, _asm_ebpf, 1, 2, (3, 4, 5, 6), None, 64, (8, 16, 32, 64)),
+}
+
+
+def copy_reread_programs(name, rng, count, bigend=False):
+    """[(kind, [(op, width, signed, data register, 'A'|'B', displacement)...])]: blocks that copy memory to memory through a
+    register and then look at narrower pieces of the copy.  Register numbers / displacements only - encoded by the ISA's table."""
+    _, _, ra, rb, data, narrow, W, widths = COPY_ISAS[name]
+    progs = []
+    kinds = [k for k, on in (("copy-reread", G_COPY_REREAD), ("copy-overwrite", G_COPY_OVERWRITE), ("copy-overlap", G_COPY_OVERLAP),
+                             ("reg-store-reread", G_REG_STORE_REREAD),
+                             ("spans-unwritten", G_READ_SPANS_UNWRITTEN and (G_READ_SPANS_UNWRITTEN_BIG_ENDIAN or not bigend))) if on]
+    if not kinds:
+        return progs
+    for n in range(count):
+        kind = kinds[n % len(kinds)]
+        full = rng.choice([w for w in widths if w >= 32] + [W])          # width of the copy
+        if name == "sparc_v8" and full == 64:
+            x = rng.choice([d for d in data if d % 2 == 0 and d + 1 not in (ra, rb)])
+        else:
+            x = rng.choice(data)
+        others = [d for d in data if d != x and not (full == 64 and name == "sparc_v8" and d == x + 1)]
+        d1 = rng.choice([0, 4, 8, 16] if full < 64 else [0, 8, 16, 24])
+        d2 = rng.choice([0, 4, 8, 12] if full < 64 else [0, 8, 16])
+        nb = full // 8
+        p = []
+
+        def piece(maxw=None):
+            """a narrower multi-byte (sometimes single-byte) piece of the copy: (width, byte offset inside the copy)"""
+            ws = [w for w in widths if w < (maxw or full)]
+            w = rng.choice([w for w in ws if w > 8] * 3 + ws)
+            off = rng.randrange(0, nb - w // 8 + 1)
+            if rng.random() < 0.8:
+                off -= off % (w // 8)
+            return w, off
+
+        def reread(lo=1, hi=3):
+            for _ in range(rng.randrange(lo, hi + 1)):
+                w, off = piece()
+                dst = narrow if (narrow is not None and w < 32) else rng.choice(others)
+                p.append(("ld", w, rng.random() < 0.5, dst, "B", d2 + off))
+        if kind in ("copy-reread", "copy-overwrite", "copy-overlap"):
+            if rng.random() < 0.2:
+                # the value copied is a narrower load, extended by the load itself
+                lw = rng.choice([w for w in widths if w < full])
+                if narrow is not None and lw < 32:
+                    x = narrow
+                    others = [d for d in data if d != x]
+                p.append(("ld", lw, rng.random() < 0.5, x, "A", d1))
+            else:
+                p.append(("ld", full, False, x, "A", d1))
+            if rng.random() < 0.3:                                       # something unrelated in between
+                p.append(("ld", 32, False, rng.choice(others), "A", d1 + 32))
+            if rng.random() < 0.3 and full < 64 and nb + d2 + 4 < 64:    # a second adjacent copy
+                y = rng.choice(others)
+                p.append(("ld", full, False, y, "A", d1 + nb))
+                p.append(("st", full, False, y, "B", d2 + nb))
+            p.append(("st", full, False, x, "B", d2))
+            if kind == "copy-overwrite":
+                w, off = piece()
+                src = narrow if (narrow is not None and w < 32) else rng.choice(others)
+                p.append(("st", w, False, src, "B", d2 + off))
+            reread()
+            if rng.random() < 0.5:
+                p.append(("ld", full, False, rng.choice(others), "B", d2))
+        elif kind == "reg-store-reread":
+            p.append(("st", full, False, x, "B", d2))
+            if rng.random() < 0.4:
+                w, off = piece()
+                src = narrow if (narrow is not None and w < 32) else rng.choice(others)
+                p.append(("st", w, False, src, "B", d2 + off))
+            reread()
+        else:                                                            # spans-unwritten
+            w, _ = piece()
+            sw = w if rng.random() < 0.5 else full
+            p.append(("ld", full, False, x, "A", d1))
+            p.append(("st", sw, False, narrow if (narrow is not None and sw < 32) else x, "B", d2 + 4))
+            k = rng.choice([1, 2, 3])
+            dst = rng.choice(others)
+            p.append(("ld", 32, False, dst, "B", d2 + 4 - k))
+            if rng.random() < 0.5:
+                p.append(("ld", 32, False, rng.choice(others), "B", d2 + 4 + k))
+        if name.startswith("mips"):
+            # loads are delayed by one instruction (mapper.delayed): an unrelated load into a scratch register after each
+            # load commits it before the next instruction of the shape uses it (and before the block ends)
+            p = [j for ins in p for j in ((ins, ("ld", 32, False, 12, "A", 48)) if ins[0] == "ld" else (ins,))]
+        progs.append((kind, p))
+    return progs
+
+
+def copy_reread_work(name, k, dis, cpu, mapper, conf, counters, seed=0):
+    """decoded (G) blocks with the registers to pin: [(instructions, {register: 'src'|'dst'}, kind)].  Every hand-made
+    encoding is validated through its own decoded semantics (a load reads / a store writes the requested number of bits
+    through one base register at the requested displacement); blocks with an encoding that does not validate are dropped."""
+    if name not in COPY_ISAS or COPY_ISAS[name][0] != k:
+        return []
+    mode, enc, ra, rb, data, narrow, W, widths = COPY_ISAS[name]
+    rng = random.Random(20240 + 7 * seed)
+    ml = dis.maxlen
+    try:
+        bigend = cpu.get_data_endian() == -1
+    except Exception:
+        bigend = False
+    cache = {}
+
+    def decode(op, w, signed, rd, which, disp):
+        key = (op, w, signed, rd, which, disp)
+        if key in cache:
+            return cache[key]
+        cache[key] = None
+        b = enc(op, w, signed, rd, ra if which == "A" else rb, disp)
+        if b is None and op == "ld":
+            b = enc(op, w, not signed, rd, ra if which == "A" else rb, disp)      # the ISA has only one of the two extensions
+        if b is None:
+            return None
+        isa.reset_pending(dis)
+        try:
+            i = dis(b + bytes(ml))
+        except Exception:
+            i = None
+        isa.reset_pending(dis)
+        if i is None or len(i.bytes) != len(b):
+            return None
+        # semantic validation on an empty map
+        saved = (conf.Cas.noaliasing, conf.Cas.memtrace)
+        conf.Cas.noaliasing, conf.Cas.memtrace = True, True
+        try:
+            m = mapper()
+            i(m)
+            m.update_delayed()
+            found = None
+            for loc, v in m:
+                if op == "st" and loc._is_ptr and v.size == w and loc.base._is_reg and loc.disp == disp:
+                    found = loc.base
+                if op == "ld" and not loc._is_ptr:
+                    acc = [a for a in pointer_reads(v) if a.size == w and a.a.base._is_reg and a.a.disp == disp]
+                    if acc:
+                        found = acc[0].a.base
+        except Exception:
+            found = None
+        finally:
+            conf.Cas.noaliasing, conf.Cas.memtrace = saved
+        if found is not None:
+            cache[key] = (i, found)
+        return cache[key]
+    out = []
+    for kind, prog in copy_reread_programs(name, rng, 40, bigend):
+        seq, pins, ok = [], {}, True
+        for ins in prog:
+            d = decode(*ins)
+            if d is None:
+                ok = False
+                break
+            seq.append(d[0])
+            want = "src" if ins[4] == "A" else "dst"
+            if pins.setdefault(str(d[1]), want) != want:
+                ok = False
+                break
+        if ok and len(pins) == len({ins[4] for ins in prog}):
+            out.append((seq, pins, kind))
+            counters["G_blocks"] = counters.get("G_blocks", 0) + 1
+        else:
+            counters["G_dropped"] = counters.get("G_dropped", 0) + 1
+    return out
+
+
+def safe_listing(seq):
+    out = []
+    for i in seq[:10]:
+        try:
+            out.append(str(i))
+        except Exception:
+            out.append(str(getattr(i, "mnemonic", "?")) + " " + bytes(i.bytes).hex())
+    return out
+
+
+def pointer_reads(e):
+    """mem sub-expressions of e"""
+    out = []
+
+    def walk(e):
+        if e is None or not hasattr(e, "etype"):
+            return
+        if e._is_mem:
+            out.append(e)
+            walk(e.a.base)
+        elif e._is_ptr:
+            walk(e.base)
+        elif e._is_eqn:
+            walk(e.l)
+            walk(e.r)
+        elif e._is_tst:
+            walk(e.tst)
+            walk(e.l)
+            walk(e.r)
+        elif e._is_slc:
+            walk(e.x)
+        elif e._is_cmp:
+            for p in e.parts.values():
+                walk(p)
+        elif e._is_vec:
+            for p in e.l:
+                walk(p)
+    walk(e)
+    return out
+
+
 def seq_worker(args):
-    name, k, seed, nseq = args
+    name, k, seed, nseq = args[:4]
+    parts = args[4] if len(args) > 4 else "ABCDEFG"
     import amoco.arch.core as core
     from amoco.cas import expressions as E
     from amoco.cas.mapper import mapper
@@ -261,7 +603,7 @@ def seq_worker(args):
         import zlib
         work = []
         # (A) deterministic: every decodable spec-derived instruction alone, on two states (independent of VERIF_SEED)
-        for s_ in specs:
+        for s_ in (specs if "A" in parts else []):
             drng = random.Random(zlib.crc32(s_.format.encode()) + 99)
             for fill in range(2):
                 b = c04.spec_bytes(drng, s_, e, ml) + bytes(drng.getrandbits(8) for _ in range(ml))
@@ -274,12 +616,12 @@ def seq_worker(args):
                 if i is not None:
                     work.append(([i], drng, ((True, True),)))
         # (B) random sequences
-        for _ in range(nseq):
+        for _ in range(nseq if "B" in parts else 0):
             seq = [rng.choice(pool) for _ in range(rng.randrange(1, 9))]
             work.append((seq, rng, ((True, True), (False, True), (True, False), (False, False)) if rng.random() < 0.25 else ((True, True),)))
         # (C) x86 / x64: overlapping stores and loads through one base register with nearby displacements and mixed
         # widths (store; overlapping store; store again; load) - the orders in which a block map must replay its writes
-        if name in ("x86_x86", "x64_x64"):
+        if name in ("x86_x86", "x64_x64") and "C" in parts:
             for _ in range(max(24, nseq // 4)):
                 base = rng.choice([3, 6, 7])
                 code = []
@@ -328,7 +670,7 @@ def seq_worker(args):
         # (E) x86 / x64: the pointer register is changed by a constant inside the block before it is used (the block map keeps
         # base + accumulated displacement, the stepwise route wraps the register each time); states near both ends of the
         # address space are generated below
-        if name in ("x86_x86", "x64_x64"):
+        if name in ("x86_x86", "x64_x64") and "E" in parts:
             rexw = b"\x48" if name == "x64_x64" else b""
             adj = [rexw + b"\x83\xc3" + bytes([k]) for k in (4, 8, 0x7c)] + [rexw + b"\x83\xeb" + bytes([k]) for k in (4, 8)] + \
                   ([b"\x43", b"\x4b"] if name == "x86_x86" else [b"\x48\xff\xc3", b"\x48\xff\xcb"])
@@ -351,14 +693,14 @@ def seq_worker(args):
         # (F) big-endian data: a word is loaded and, still symbolic in the block map, sliced at bit positions that are not byte
         # boundaries (masks like 0x1f, shifts by 3) - SPARC and PowerPC encodings written by hand
         be_words = []
-        if name == "sparc_v8":
+        if name == "sparc_v8" and "F" in parts:
             for imm in (0x1f, 0x3ff, 0xfff, 7, 0x1ff, 0xff):
                 for op3 in (0x01, 0x25, 0x26):                       # and, sll, srl
                     for ld3 in (0x00, 0x02, 0x01):                   # ld, lduh, ldub
                         ld = (3 << 30) | (9 << 25) | (ld3 << 19) | (8 << 14) | (1 << 13) | 4
                         alu = (2 << 30) | (10 << 25) | (op3 << 19) | (9 << 14) | (1 << 13) | (imm if op3 == 1 else imm & 31)
                         be_words.append([ld, alu])
-        if name == "ppc32_cpu":
+        if name == "ppc32_cpu" and "F" in parts:
             for ui in (0x1f, 0x3ff, 0xfff, 7, 0x1ff, 0xff):
                 be_words.append([0x80000000 | (9 << 21) | (8 << 16) | 4, 0x70000000 | (9 << 21) | (10 << 16) | ui])
         frng = random.Random(991)
@@ -375,13 +717,28 @@ def seq_worker(args):
                     seq.append(i)
             if len(seq) == len(ws):
                 work.append((seq, frng, ((True, True),)))
-        for seq, rng, cfgs in work:
+        # (G) memory copied to memory through a register (the loaded value is still symbolic in the block map when it is
+        # stored), then narrower pieces of the copy re-read, directly or after a narrower store into it - big- and
+        # little-endian ISAs, all four settings; the two pointer registers are pinned to cells of the concrete window
+        if "G" in parts:
+            grng = random.Random(1789 + seed)
+            for seq, pins, kind in copy_reread_work(name, k, dis, cpu, mapper, conf, res, seed):
+                work.append((seq, grng, ((True, True), (False, True), (True, False), (False, False)), pins, kind))
+        for item in work:
+            seq, rng, cfgs = item[:3]
+            pins, gkind = (item[3], item[4]) if len(item) > 3 else ({}, None)
             for cfg in cfgs:
                 conf.Cas.noaliasing, conf.Cas.memtrace = cfg
                 regvals = []
+                psrc = MEMBASE + 0x3d00 + 0x40 + 8 * rng.randrange(0, 8) + (rng.choice([1, 2, 4]) if rng.random() < 0.2 else 0) if pins else 0
+                pdst = MEMBASE + 0x3e00 + 0x40 + 8 * rng.randrange(0, 8) + (rng.choice([1, 2, 4]) if rng.random() < 0.2 else 0) if pins else 0
+                if gkind == "copy-overlap" and not cfg[0]:
+                    pdst = psrc + rng.randrange(-6, 7)
                 for ri, r in enumerate(regs):
                     c = rng.random()
-                    if c < 0.5 and r.size >= 20:
+                    if str(r) in pins:
+                        v = psrc if pins[str(r)] == "src" else pdst
+                    elif c < 0.5 and r.size >= 20:
                         # under the no-aliasing assumption the property only covers states where distinct pointers do
                         # not overlap: give every register its own 256-byte cell
                         v = (MEMBASE + 0x100 * (ri % 60) + 0x40 + 8 * rng.randrange(0, 8)) if cfg[0] else (MEMBASE + 0x100 + 8 * rng.randrange(0, 40))
@@ -488,7 +845,13 @@ def seq_worker(args):
                             # space continues at 2^n there, and at 0 for a later access whose address wrapped
                             key = "%s|access-wraps-around-the-address-space" % name
                         only_mem = all(d[0].startswith("mem") for d in diffs) or (minimal is not None and route_differs(minimal) == "mem")
-                        if not cfg[1] and only_mem:
+                        if gkind is not None and cfg == (True, False) and any(d[0].startswith("reg") for d in diffs):
+                            # (G) a final REGISTER differs with no store recorded in either ordered map (no-aliasing assumed,
+                            # memory tracing off): neither the composition nor an evaluation replays anything, so none of the
+                            # two replay root causes below can explain it - whatever a two-instruction sub-block shows
+                            key = "%s|%s:register-differs" % (name, gkind)
+                            minimal = None
+                        elif not cfg[1] and only_mem:
                             # with memory tracing off, stores are kept in the block's MemoryMap only and the composition
                             # (which replays the ordered map) does not see them
                             key = "memtrace-off|stores-not-replayed-by-composition"
@@ -499,7 +862,8 @@ def seq_worker(args):
                             res["finds"][key] = {"isa": name, "mode": k, "sequence": [bytes(i.bytes).hex() for i in seq],
                                                  "single_instruction": bytes(culprit.bytes).hex() if culprit is not None else None,
                                                  "minimal_subsequence": [bytes(i.bytes).hex() for i in minimal] if minimal else None,
-                                                 "noaliasing": cfg[0], "memtrace": cfg[1],
+                                                 "noaliasing": cfg[0], "memtrace": cfg[1], "generator": gkind,
+                                                 "listing": safe_listing(seq),
                                                  "registers": [(str(r), hex(v)) for r, v in regvals], "membytes": membytes.hex(),
                                                  "differences(symbolic,stepwise)": diffs[:6]}
                     if len(res["samples"]) < 1:
